@@ -185,6 +185,7 @@ pub fn run() {
     let maxl: usize = std::env::args().nth(1).map(|s| s.parse().unwrap()).unwrap_or(5);
     let mut t = Tally { cases: 0, failures: 0, first: None, cli: None };
     let mut prog = Program { _p: PhantomData };
+    std::panic::set_hook(Box::new(|_| {}));   // panics are counted below, not printed
     let retag = |ls: &[L], t0: usize| -> Vec<L> { ls.iter().enumerate().map(|(i, l)| L { tag: t0 + i, ..*l }).collect() };
 
     // (1) field list == specification; agrees with find_field / has_field / has_visible_field
@@ -192,7 +193,11 @@ pub fn run() {
         for_each_object(n, &mut |ls| {
             let o = &object(ls);
             let want = spec_fields(ls);
-            let got = real_fields(o);
+            // a panic of the real code on a reachable object is a failure with this object as the witness
+            let got = match std::panic::catch_unwind(std::panic::AssertUnwindSafe(|| { let g = real_fields(o); (g, [o.has_field(0, NAME), o.has_field(0, OTHER)], [o.has_visible_field(NAME), o.has_visible_field(OTHER)]) })) {
+                Ok((g, _, _)) => g,
+                Err(_) => { t.check(false, "C07:objnative:no-panic-on-a-reachable-object", || show(ls)); if t.cli.is_none() { t.cli = cli_program(ls); } return; }
+            };
             t.check(got == want, "C07:objnative:field-list-is-the-visibility-rule-over-the-effective-definitions", || format!("{} got {:?} want {:?} (name id, visible)", show(ls), got, want));
             if got != want && t.cli.is_none() { t.cli = cli_program(ls); }
             for (nm, id) in [(NAME, 1u8), (OTHER, 2u8)] {
@@ -205,6 +210,7 @@ pub fn run() {
         });
     }
 
+    let r23 = std::panic::catch_unwind(std::panic::AssertUnwindSafe(|| {
     // (2) extension concatenates layers (rhs first), the result starts unchecked and without a cached list;
     //     both bracketings of a three-way extension give the same layers; {} is a two-sided identity for the field list
     let small = all_objects(2);
@@ -275,6 +281,8 @@ pub fn run() {
         });
     }
 
+    }));
+    if r23.is_err() { t.check(false, "C07:objnative:no-panic-in-extension-or-removal-of-reachable-objects", || "a panic inside extend_object / object_with_field_removed / the queries on their result (run the unit natively for the backtrace)".to_string()); }
     println!("OBJNATIVE cases={} failures={} maxl={}", t.cases, t.failures, maxl);
     if let Some(w) = t.first { println!("OBJNATIVE first-failure {}", w); }
     if let Some(w) = t.cli { println!("OBJNATIVE cli-witness {}", w); }
